@@ -772,3 +772,151 @@ func init() {
 			}
 		}})
 }
+
+// derefsTicketParam: does fn (or a same-package callee it hands the parameter to, two
+// levels) use its idx-th parameter, a *time.Ticket, as the receiver of a method or
+// select a field of it, on a path that no nil test of the parameter guards?
+func (x *Ctx) derefsTicketParam(fn *ssa.Function, idx int, depth int) bool {
+	if fn == nil || idx >= len(fn.Params) || depth > 2 || len(fn.Blocks) == 0 {
+		return false
+	}
+	pm := fn.Params[idx]
+	isPm := VP{"the parameter", func(v ssa.Value) bool {
+		return prog.Reaches(v, func(w ssa.Value) bool { return w == ssa.Value(pm) })
+	}}
+	guarded := func(ins ssa.Instruction) bool {
+		return x.quietGuarded(ins, []Cmp{{L: isPm, R: vpNil, Want: NE}})
+	}
+	for _, b := range fn.Blocks {
+		for _, ins := range b.Instrs {
+			switch t := ins.(type) {
+			case *ssa.FieldAddr:
+				if isPm.match(t.X) && !guarded(t) {
+					return true
+				}
+			case ssa.CallInstruction:
+				cc := t.Common()
+				if cc.IsInvoke() {
+					continue
+				}
+				callee := cc.StaticCallee()
+				for i, a := range cc.Args {
+					if !isPm.match(a) {
+						continue
+					}
+					if i == 0 && cc.Signature().Recv() != nil {
+						// receiver of a Ticket method: the methods dereference their receiver
+						if !guarded(t) && (callee == nil || x.derefsRecv(callee)) {
+							return true
+						}
+						continue
+					}
+					if callee != nil && callee.Pkg == fn.Pkg && !guarded(t) && x.derefsTicketParam(callee, i, depth+1) {
+						return true
+					}
+				}
+			}
+		}
+	}
+	return false
+}
+
+// derefsRecv: the method selects a field of (or calls a method on) its receiver without a nil test.
+func (x *Ctx) derefsRecv(fn *ssa.Function) bool {
+	if len(fn.Params) == 0 || len(fn.Blocks) == 0 {
+		return true
+	}
+	rv := fn.Params[0]
+	isRv := VP{"the receiver", func(v ssa.Value) bool { return prog.Strip(v) == ssa.Value(rv) }}
+	for _, b := range fn.Blocks {
+		for _, ins := range b.Instrs {
+			if fa, ok := ins.(*ssa.FieldAddr); ok && isRv.match(fa.X) {
+				if !x.quietGuarded(fa, []Cmp{{L: isRv, R: vpNil, Want: NE}}) {
+					return true
+				}
+			}
+		}
+	}
+	return false
+}
+
+func init() {
+	register(&Rule{ID: "N4", Min: 2, Text: "decoded tickets that the model dereferences are present: fromTimeTicket returns (nil, nil) for an absent field, so in the converter's decoders every *time.Ticket produced by fromTimeTicket(msg.F) and handed to a function of the CRDT model that dereferences that parameter without a nil test (AddDeadPosition's position ticket, AddMovedElement's, …) is reachable only through an edge on which msg.F was found non-nil — a shape check that rejects only 'both absent' lets a half-stamped node through and the server panics on hostile bytes",
+		Run: func(x *Ctx) {
+			from := x.P.FnObj(convPkg + ".fromTimeTicket")
+			if from == nil {
+				x.C.Unresolved(x.id(), "converter.fromTimeTicket")
+				return
+			}
+			n := 0
+			cnt := map[string]int{}
+			for _, fn := range x.P.FuncsIn(convPkg) {
+				file := x.P.Fset.Position(fn.Pos()).Filename
+				if !(strings.HasSuffix(file, "from_bytes.go") || strings.HasSuffix(file, "from_pb.go")) {
+					continue
+				}
+				for _, c := range prog.CallsIn(fn) {
+					callee := c.Common().StaticCallee()
+					if callee == nil || callee.Pkg == nil || !strings.HasSuffix(callee.Pkg.Pkg.Path(), "/"+crdtPkg) {
+						continue
+					}
+					for i, a := range c.Common().Args {
+						// the argument is (the first result of) fromTimeTicket(F)
+						var src *ssa.Call
+						prog.Reaches(a, func(w ssa.Value) bool {
+							if ex, ok := w.(*ssa.Extract); ok && ex.Index == 0 {
+								if cc, isC := ex.Tuple.(*ssa.Call); isC && sameFunc(prog.CallObj(cc), from) {
+									src = cc
+									return true
+								}
+							}
+							return false
+						})
+						if src == nil || !x.derefsTicketParam(callee, i, 0) {
+							continue
+						}
+						n++
+						cnt[prog.FnName(fn)+callee.Name()]++
+						field := src.Call.Args[0]
+						same := VP{"the decoded field", func(w ssa.Value) bool { return sameAccessPath(w, field) || prog.Strip(w) == prog.Strip(field) }}
+						ok := x.quietGuarded(c, []Cmp{{L: same, R: vpNil, Want: NE}})
+						x.check(ok, fmt.Sprintf("func=%s call=%s#%d arg%d-field-checked-present", prog.FnName(fn), callee.Name(), cnt[prog.FnName(fn)+callee.Name()], i), x.pos(c),
+							"the field the ticket is decoded from was found non-nil on every path", "a ticket decoded from a field that may be absent is handed to "+callee.Name()+", which dereferences it: a structurally valid message without that field crashes the decoder")
+					}
+				}
+			}
+			if n < 2 {
+				x.C.Vacuous(x.id()+" ticket hand-offs", n, 2)
+			}
+		}})
+
+	register(&Rule{ID: "PRIM.date", Min: 2, Text: "the Date primitive is written and read in one unit: in package crdt the encoder of a time value (Primitive.Bytes) and the decoder (ValueFromBytes) use the same Unix… conversion of package time (UnixMilli on both sides) — Marshal prints whole seconds, so a unit slip in one direction is invisible to every comparison of marshalled documents while the value drifts with each round trip",
+		Run: func(x *Ctx) {
+			enc, dec := map[string]bool{}, map[string]bool{}
+			for _, fn := range x.P.FuncsIn(crdtPkg) {
+				file := x.P.Fset.Position(fn.Pos()).Filename
+				if !strings.HasSuffix(file, "primitive.go") {
+					continue
+				}
+				for _, c := range prog.CallsIn(fn) {
+					o := prog.CallObj(c)
+					if o == nil || o.Pkg() == nil || o.Pkg().Path() != "time" || !strings.HasPrefix(o.Name(), "Unix") {
+						continue
+					}
+					if o.Type().(*types.Signature).Recv() != nil {
+						enc[o.Name()] = true
+					} else {
+						dec[o.Name()] = true
+					}
+				}
+			}
+			same := len(enc) == 1 && len(dec) == 1
+			for k := range enc {
+				if !dec[k] {
+					same = false
+				}
+			}
+			x.check(len(enc) > 0 && len(dec) > 0, "package=crdt primitive-date-codec-present", x.fpos(x.fn(crdtPkg+".ValueFromBytes")), "the Date codec uses the Unix… conversions of package time", "the Date codec no longer uses time's Unix… conversions on both sides")
+			x.check(same, "package=crdt primitive-date-one-unit", x.fpos(x.fn(crdtPkg+".ValueFromBytes")), fmt.Sprintf("written with %v, read with %v", keysOf(enc), keysOf(dec)), fmt.Sprintf("a time value is written with %v and read with %v: the units differ", keysOf(enc), keysOf(dec)))
+		}})
+}
